@@ -96,6 +96,7 @@ def run(ctx):
             # names no file system takes: longer than a file name may be, running through a file, empty
             "CREATE DATABASE " + "d" * 300, "USE " + "d" * 300, 'CREATE DATABASE "a/tbl/x"', 'USE "a/tbl/x"', 'CREATE DATABASE ""', 'USE ""',
             "CREATE TABLE " + "t" * 300 + " (a INT)", "SELECT * FROM " + "t" * 300, 'CREATE DATABASE "."', 'CREATE DATABASE ".."', 'USE ".."']
+    fsnames, near = [x for x in near if x.startswith(("CREATE DATABASE", "USE"))], [x for x in near if not x.startswith(("CREATE DATABASE", "USE"))]
     # operators other SQL dialects have and this grammar (today) has not, with operands that are awkward for the usual ways
     # of implementing them (pattern metacharacters, empty lists, NULLs, mixed types, division by zero)
     for pat in ("%(draft", "c++%", "[%", "%)", "a_b\\", "%", "", "*", "a{2", "\\", "(?i)a", "%%%", "_"):
@@ -111,6 +112,7 @@ def run(ctx):
              "SELECT * FROM t8 CROSS JOIN t8 u", "SELECT * FROM t8, t8 u", "SELECT * FROM t8 u JOIN t8 v USING (a)", "SELECT * FROM t8 NATURAL JOIN t8 u", "SELECT * FROM t8 FULL JOIN t8 u ON u.a = t8.a",
              "DROP TABLE t8", "DROP DATABASE d8", "ALTER TABLE t8 ADD b INT", "TRUNCATE TABLE t8", "INSERT INTO t8 SELECT * FROM t8", "UPDATE t8 SET a = a + 1", "DELETE FROM t8 LIMIT 1",
              "SELECT * FROM t8 WHERE a = 1.5", "SELECT * FROM t8 WHERE a = .5", "SELECT * FROM t8 WHERE a = 1e3", "SELECT * FROM t8 WHERE s = `x`", "SELECT * FROM t8 LIMIT 1.5", "SELECT * FROM t8 -- c", "SELECT * FROM t8 /* c */ WHERE a = 1"]
+    near += fsnames      # statements that may leave the session without its database come last
     for st in ("nulls", "empty", "nodb"):
         t = rng.randrange(1, len(tables)) if st == "nulls" else 0
         reqs.setdefault((st, t, "near"), []).extend(dict(raw=x, **{"from": [], "list": [], "where": [], "group": [], "order": [], "limit": -1, "offset": -1, "style": 0}) for x in near)
